@@ -77,6 +77,20 @@ Proof.
   lia.
 Qed.
 
+Lemma pyslice_from_last {A} (l : list A) (n : nat) : (0 < n)%nat ->
+  pyslice_from l (- Z.of_nat n) = if Nat.leb (length l) n then l else skipn (length l - n) l.
+Proof.
+  intros Hn. unfold pyslice_from, norm_idx.
+  destruct (- Z.of_nat n <? 0) eqn:E0; [|lia].
+  destruct (Nat.leb_spec (length l) n) as [H|H].
+  - destruct (- Z.of_nat n + Z.of_nat (length l) <? 0) eqn:E1; [reflexivity|].
+    assert (length l = n) by lia. replace (- Z.of_nat n + Z.of_nat (length l)) with 0 by lia.
+    cbn [Z.ltb Z.compare]. destruct (Z.of_nat (length l) <? 0) eqn:E2; [lia|reflexivity].
+  - destruct (- Z.of_nat n + Z.of_nat (length l) <? 0) eqn:E1; [lia|].
+    destruct (Z.of_nat (length l) <? - Z.of_nat n + Z.of_nat (length l)) eqn:E2; [lia|].
+    f_equal. lia.
+Qed.
+
 Lemma truth_gbool b : g_truth (gbool b) = b.
 Proof. destruct b; reflexivity. Qed.
 
